@@ -774,7 +774,7 @@ theorem selfRep_sound : ∀ (k n : Nat) (ty : PyTy) (v : PyVal) (j : Json), self
           case float =>
             simp only [Bool.and_eq_true, List.any_eq_true, Bool.not_eq_true'] at hfl
             obtain ⟨⟨i, hi, hii⟩, hbi⟩ := hfl
-            cases i <;> try (simp [PyTy.isInt] at hii; done)
+            cases i <;> try (simp [PyTy.isIntTy] at hii; done)
             cases n with
             | zero => simp [rep] at hr
             | succ n =>
@@ -1043,13 +1043,13 @@ theorem field_sub {st : St} {ca : Cls} {fb : Field} {kvs : List (Name × Json)} 
     cases hl : Json.lookup kvs fb.wireS with
     | some x =>
       simp only [hl] at hrd ⊢
-      have hnnx : ((fa.omitU && fa.dflt == Dflt.none) || !((kindsOf E kindsFuel fa.ty).contains Kind.none)) = true → x ≠ .null := by
+      have hnnx : ((fa.omitU && fa.dflt == Dflt.none && !fa.ty.anyNull) || !((kindsOf E kindsFuel fa.ty).contains Kind.none)) = true → x ≠ .null := by
         intro hnn hx
         subst hx
         simp only [Bool.or_eq_true, Bool.and_eq_true, beq_iff_eq, Bool.not_eq_true'] at hnn
-        rcases hnn with ⟨ho, hd⟩ | hk
+        rcases hnn with ⟨⟨ho, hd⟩, ha⟩ | hk
         · have := hrd.2
-          simp [Field.faithfulJ, hd, ho, Json.isNull] at this
+          simp [Field.faithfulJ, hd, ho, ha, Json.isNull] at this
         · have := kinds_sound E bad kindsFuel n fa.ty v .null hrd.1
           simp only [Json.kind] at this
           rw [hk] at this
@@ -1059,11 +1059,13 @@ theorem field_sub {st : St} {ca : Cls} {fb : Field} {kvs : List (Name × Json)} 
         cases hd : fb.dflt with
         | none =>
           simp only [hd] at hfaith ⊢
-          rcases Bool.or_eq_true_iff.mp hfaith with ho | hnn
-          · simp only [Bool.not_eq_true'] at ho
-            simp [ho]
-          · have := hnnx hnn
-            cases x <;> first | exact absurd rfl this | simp [Json.isNull]
+          rcases Bool.or_eq_true_iff.mp hfaith with hfa | hany
+          · rcases Bool.or_eq_true_iff.mp hfa with ho | hnn
+            · simp only [Bool.not_eq_true'] at ho
+              simp [ho]
+            · have := hnnx hnn
+              cases x <;> first | exact absurd rfl this | simp [Json.isNull]
+          · simp [hany]
         | str s =>
           simp only [hd, Bool.not_eq_true'] at hfaith
           simp [hfaith]
